@@ -211,7 +211,7 @@ static Hash128 hash_key(const std::string& s) {
 }
 
 constexpr int MAXD = 12;
-enum { HISTORY_WATCHDOG_S = 20 };
+enum { HISTORY_WATCHDOG_S = 10 };   // a history takes well under a millisecond on the reference tree
 struct Node { MState st; int32_t prefix; uint8_t len; uint8_t stut; uint8_t hist[MAXD]; };  // stut: reached by an operation that left the model state unchanged
 struct Rec { uint8_t type; Hash128 h; Node n; };  // type 1 successor, 2 end-of-worker stats
 struct Stats { long transitions = 0, ops = 0, fenced = 0, foreign = 0, lenient = 0, violations = 0, disabled = 0, selfcheck_fail = 0, incomplete = 0; };
@@ -371,11 +371,13 @@ struct Explorer {
   }
 
   void confirm_crash(const Plan& p, const std::vector<Op>& ops, int sig_or_code) {
-    // replay the history in flight alone, twice, before reporting it
+    // replay the history in flight alone, twice, before reporting it (the first three of a run; further ones are the same fault
+    // seen by other workers and are only counted)
+    if (crashes >= 3) { ++violations; ++crashes; return; }
     int fails = 0;
     for (int rep = 0; rep < 2; ++rep) {
       pid_t c = fork();
-      if (c == 0) { alarm(30); run_history(ops, p.mask, guards, false); _exit(0); }
+      if (c == 0) { alarm(HISTORY_WATCHDOG_S); run_history(ops, p.mask, guards, false); _exit(0); }
       int stt; waitpid(c, &stt, 0);
       if (!(WIFEXITED(stt) && WEXITSTATUS(stt) == 0)) ++fails;
     }
